@@ -7,18 +7,17 @@ The central one: the class a `?` stands for is *re-derived* here from the string
 order of the `strings.Replace` calls in `compilePattern` / `getMoreSpecificPatterns`: the later
 replacements are applied to the text the first replacement inserts (that is what the Go code does,
 since each `strings.Replace` runs over the whole string).  If the Go code is changed (e.g. the
-replacements reordered so that `[^\*%]` survives), these theorems stop type-checking and the model
-has to follow.
+replacements reordered back, so that the class is rewritten to `[^.*.*]` again -- the D1 defect
+repaired by 4a3abdc), these theorems stop type-checking.
 -/
 namespace DoltVerif.Tie.Ignore
 open DoltVerif DoltVerif.Ignore
 
-/-- what `?` finally becomes in a regular expression: the first replacement's new text, rewritten
-by the replacements that follow it -/
-def finalQ (rs : List (String × String)) : Str :=
-  match rs with
-  | [] => []
-  | r :: rest => applyReplacements rest r.2.toList
+/-- what the text inserted for `old` finally becomes in the regular expression: the replacement's
+new text, rewritten by the replacements that follow it -/
+def finalFor (old : String) : List (String × String) → Option Str
+  | [] => none
+  | r :: rest => if r.1 == old then some (applyReplacements rest r.2.toList) else finalFor old rest
 
 /-- compilePattern: `\?` -> `.`, `\*` -> `.*`, `%` -> `.*`, anchored by `^`...`$` -/
 theorem compile_shape :
@@ -28,40 +27,45 @@ theorem compile_shape :
         ["regexp.QuoteMeta", "strings.Replace", "strings.Replace", "strings.Replace", "regexp.Compile"] := by
   decide
 
-theorem compile_q_text : finalQ Gen.Ignore.compilePatternReplacements = ".".toList := by decide
+theorem compile_q_text :
+    finalFor "\\?" Gen.Ignore.compilePatternReplacements = some ".".toList := by decide
 
 /-- in `MatchTablePattern` a `?` is the regex atom `.` = the model's `dotOk` -/
 theorem compile_q_class (c : Char) :
-    atomClass (finalQ Gen.Ignore.compilePatternReplacements) c = some (dotOk c) := by
+    (finalFor "\\?" Gen.Ignore.compilePatternReplacements).bind (atomClass · c) = some (dotOk c) := by
   rw [compile_q_text]; rfl
 
-/-- getMoreSpecificPatterns: the same skeleton with `\?` -> `[^\*%]` *first* -/
+/-- getMoreSpecificPatterns: the wildcards first, `\?` -> `[^\*%]` last (fix 4a3abdc) -/
 theorem moreSpecific_shape :
-    Gen.Ignore.getMoreSpecificPatternsReplacements = [("\\?", "[^\\*%]"), ("\\*", ".*"), ("%", ".*")]
+    Gen.Ignore.getMoreSpecificPatternsReplacements = [("\\*", ".*"), ("%", ".*"), ("\\?", "[^\\*%]")]
     ∧ Gen.Ignore.getMoreSpecificPatternsLiterals = ["^", "$"]
     ∧ Gen.Ignore.getMoreSpecificPatternsCalls =
         ["regexp.QuoteMeta", "strings.Replace", "strings.Replace", "strings.Replace", "regexp.Compile"] := by
   decide
 
-/-- ... so the later replacements rewrite the inside of the class: `[^\*%]` ends up as `[^.*.*]` -/
+/-- ... so nothing rewrites the class afterwards: it stays `[^\*%]` -/
 theorem moreSpecific_q_text :
-    finalQ Gen.Ignore.getMoreSpecificPatternsReplacements = "[^.*.*]".toList := by decide
+    finalFor "\\?" Gen.Ignore.getMoreSpecificPatternsReplacements = some "[^\\*%]".toList := by decide
 
-/-- in the "more specific" test a `?` is the class `[^.*.*]` = the model's `qOk` (everything except
-`.` and `*`; in particular `%` and newline are *in* the class) -/
+/-- in the "more specific" test a `?` is the class `[^\*%]` = the model's `qOk` (everything except
+`*` and `%`; newline is *in* the class) -/
 theorem moreSpecific_q_class (c : Char) :
-    atomClass (finalQ Gen.Ignore.getMoreSpecificPatternsReplacements) c = some (qOk c) := by
+    (finalFor "\\?" Gen.Ignore.getMoreSpecificPatternsReplacements).bind (atomClass · c) = some (qOk c) := by
   rw [moreSpecific_q_text]
-  have e : atomClass "[^.*.*]".toList c = some (!(['*', '.', '*', '.'] : List Char).contains c) := rfl
+  have e : atomClass "[^\\*%]".toList c = some (!(['*', '%'] : List Char).contains c) := rfl
+  show atomClass "[^\\*%]".toList c = _
   rw [e]
   congr 1
   simp only [qOk, List.contains_cons, List.contains_nil, bne]
-  cases h1 : (c == '.') <;> cases h2 : (c == '*') <;> rfl
+  cases h1 : (c == '*') <;> cases h2 : (c == '%') <;> rfl
 
-/-- the wildcard replacements (`\*` and `%` both to `.*`) are not rewritten further -/
+/-- the text inserted for the wildcards (`\*` and `%`, both `.*`) is not rewritten by the later
+replacements in either function -/
 theorem star_text :
-    applyReplacements (Gen.Ignore.compilePatternReplacements.drop 2) ".*".toList = ".*".toList
-    ∧ applyReplacements (Gen.Ignore.getMoreSpecificPatternsReplacements.drop 2) ".*".toList = ".*".toList := by
+    finalFor "\\*" Gen.Ignore.compilePatternReplacements = some ".*".toList
+    ∧ finalFor "%" Gen.Ignore.compilePatternReplacements = some ".*".toList
+    ∧ finalFor "\\*" Gen.Ignore.getMoreSpecificPatternsReplacements = some ".*".toList
+    ∧ finalFor "%" Gen.Ignore.getMoreSpecificPatternsReplacements = some ".*".toList := by
   decide
 
 theorem normalize_shape :
